@@ -30,6 +30,10 @@ class InjectedLinAlgError(np.linalg.LinAlgError):
     """a target failing with numpy's LinAlgError: handlers meant for GP failures must not swallow it"""
 
 
+class InjectedTypeError(TypeError):
+    """a target failing with a TypeError: must not be mistaken for a malformed return value"""
+
+
 class InjectedTargetError2(Exception):
     """an exception type whose constructor needs two positional arguments
     (like subprocess.CalledProcessError): it cannot be re-created from a message"""
@@ -113,9 +117,14 @@ class Recorder:
             rec["fault"] = fk
             raise InjectedTargetError("injected target failure at call %d" % n)
         if fk == "exception3":
+            rec["fault"] = fk
             raise InjectedStopIteration("injected target failure at call %d" % n)
         if fk == "exception4":
+            rec["fault"] = fk
             raise InjectedLinAlgError("injected target failure at call %d" % n)
+        if fk == "exception5":
+            rec["fault"] = fk
+            raise InjectedTypeError("injected target failure at call %d" % n)
         if fk == "exception2":
             rec["fault"] = fk
             raise InjectedTargetError2(n, "injected target failure")
@@ -511,7 +520,7 @@ class Recorder:
                             non_box_cons=consf, options=opts)
                 self.bads = bads
                 self.emit("Construct", outcome="ok", ncalls=self.ncalls,
-                          x0=_c(bads.x0), lb_int=_c(bads.lower_bounds), ub_int=_c(bads.upper_bounds),
+                          x0=_c(bads.x0), lb_int=_c(bads.var_transf.lb), ub_int=_c(bads.var_transf.ub),
                           plb_int=_c(bads.plausible_lower_bounds), pub_int=_c(bads.plausible_upper_bounds),
                           logmask=np.array(bads.var_transf.apply_log_t).astype(bool).ravel().copy(),
                           u0=_c(bads.u).ravel(),
@@ -578,7 +587,7 @@ class Recorder:
             func_count=int(fl.func_count), X_max_idx=int(fl.X_max_idx),
             cap=int(fl.X.shape[0]),
             hist={k: arrs(k) for k in ("u", "x", "yval", "fval", "fsd", "mesh_size", "search_mesh_size", "func_count")},
-            lb_int=_c(bads.lower_bounds), ub_int=_c(bads.upper_bounds),
+            lb_int=_c(bads.var_transf.lb), ub_int=_c(bads.var_transf.ub),
             k=int(bads.mesh_size_integer), mesh_size=float(bads.mesh_size),
         )
 
